@@ -1,1 +1,393 @@
-//! Hooks owned by property C02 (feature `verif-hooks`).
+//! C02: what the LIR lowerer itself answers about every type of a
+//! compilation's type pool, without lowering a program:
+//!
+//!  * `layout_of`, `is_reference_type`, `needs_clone`, `needs_drop`,
+//!    `lower_type`;
+//!  * the byte offset `Lowerer::location` computes for projection paths
+//!    (`get_field`, the `VariantField` loop), up to three steps deep;
+//!  * the memory operations of the clone / drop / eq functions it generates
+//!    (`generate_clone`, `generate_drop`, `generate_eq`), with every pointer
+//!    resolved to `base+offset` of the function's parameters.
+//!
+//! Every call is wrapped in `catch_unwind`: an `ice!()` / `unwrap()` inside
+//! the lowerer is reported as `Err(message)`.
+
+use std::collections::HashMap;
+use std::panic::{AssertUnwindSafe, catch_unwind};
+
+use crate::{
+    FileTree, NoCtx, RotoReport, Runtime,
+    lir::{
+        Instruction, IrValue, Item, Operand, Var, VarKind,
+        lower::{LowerCtx, verif_c02 as hooks},
+    },
+    mir::{Projection, Ty, TyRef},
+    runtime::Movability,
+    typechecker::types::Primitive,
+};
+
+/// Structure of one pool type (children are pool indices).
+#[derive(Clone, Debug, PartialEq)]
+pub enum Node {
+    Unit,
+    Never,
+    /// kind: `int`, `float`, `string`, `copyRef`, `list`, `rtCopy`, `rtClone`
+    Leaf(&'static str),
+    Record(Vec<(String, usize)>),
+    Enum(Vec<(String, Vec<usize>)>),
+}
+
+/// One projection step by position: `(None, i)` = field `i` of a record,
+/// `(Some(v), i)` = field `i` of variant `v`.
+pub type Step = (Option<usize>, usize);
+
+#[derive(Clone, Debug)]
+pub struct TypeDump {
+    pub id: usize,
+    pub printed: String,
+    pub node: Node,
+    pub layout: Result<Option<(usize, usize)>, String>,
+    pub is_reference_type: Result<Option<bool>, String>,
+    pub needs_clone: Result<bool, String>,
+    pub needs_drop: Result<bool, String>,
+    /// size in bytes of the IR type, `Some(None)` for `Pointer`
+    pub lower_type: Result<Option<Option<usize>>, String>,
+    /// `location` of projection paths starting at this type:
+    /// `None` = uninhabited, `Some(offset)`
+    pub paths: Vec<(Vec<Step>, Result<Option<usize>, String>)>,
+    pub clone_ops: Option<Result<Vec<String>, String>>,
+    pub drop_ops: Option<Result<Vec<String>, String>>,
+    pub eq_ops: Option<Result<Vec<String>, String>>,
+}
+
+#[derive(Clone, Debug)]
+pub struct Dump {
+    pub types: Vec<TypeDump>,
+}
+
+/// Parse, type check, lower to MIR, then question the LIR lowerer about
+/// every type in the pool.
+pub fn dump(tree: FileTree, rt: &Runtime<NoCtx>) -> Result<Dump, RotoReport> {
+    let checked = tree.parse()?.typecheck(rt)?;
+    let mut mir = checked.lower_to_mir();
+    Ok(mir.verif_c02_dump())
+}
+
+fn guard<R>(f: impl FnOnce() -> R) -> Result<R, String> {
+    catch_unwind(AssertUnwindSafe(f)).map_err(|e| {
+        if let Some(s) = e.downcast_ref::<String>() {
+            s.clone()
+        } else if let Some(s) = e.downcast_ref::<&str>() {
+            s.to_string()
+        } else {
+            "panic".to_string()
+        }
+    })
+}
+
+fn node_of(ctx: &LowerCtx<'_>, ty: TyRef) -> Node {
+    match ctx.type_info.ty_pool.get(ty) {
+        Ty::Unit => Node::Unit,
+        Ty::Never => Node::Never,
+        Ty::Record(fields) => Node::Record(
+            fields
+                .iter()
+                .map(|(n, t)| (n.as_str().to_string(), t.type_id()))
+                .collect(),
+        ),
+        Ty::Enum(variants) => Node::Enum(
+            variants
+                .iter()
+                .map(|(n, ts)| {
+                    (
+                        n.as_str().to_string(),
+                        ts.iter().map(|t| t.type_id()).collect(),
+                    )
+                })
+                .collect(),
+        ),
+        Ty::Primitive(p) => Node::Leaf(match p {
+            Primitive::Int(..)
+            | Primitive::Bool
+            | Primitive::Char
+            | Primitive::Asn => "int",
+            Primitive::Float(_) => "float",
+            Primitive::String => "string",
+            Primitive::IpAddr | Primitive::Prefix => "copyRef",
+        }),
+        Ty::List(_) => Node::Leaf("list"),
+        Ty::Runtime(id) => {
+            let m = ctx.runtime.get_runtime_type(*id).unwrap().movability();
+            Node::Leaf(if matches!(m, Movability::CloneDrop(..)) {
+                "rtClone"
+            } else {
+                "rtCopy"
+            })
+        }
+    }
+}
+
+/// Canonical structural name of a type: `U`, `N`, `L<kind>.<size>.<align>`,
+/// `R[t,..]`, `E[V[t,..]V[..]]`.
+pub fn tystr(nodes: &[Node], layouts: &[Option<(usize, usize)>], id: usize) -> String {
+    match &nodes[id] {
+        Node::Unit => "U".into(),
+        Node::Never => "N".into(),
+        Node::Leaf(k) => {
+            let (s, a) = layouts[id].unwrap_or((0, 0));
+            format!("L{k}.{s}.{a}")
+        }
+        Node::Record(fs) => format!(
+            "R[{}]",
+            fs.iter()
+                .map(|(_, t)| tystr(nodes, layouts, *t))
+                .collect::<Vec<_>>()
+                .join(",")
+        ),
+        Node::Enum(vs) => format!(
+            "E[{}]",
+            vs.iter()
+                .map(|(_, ts)| format!(
+                    "V[{}]",
+                    ts.iter()
+                        .map(|t| tystr(nodes, layouts, *t))
+                        .collect::<Vec<_>>()
+                        .join(",")
+                ))
+                .collect::<Vec<_>>()
+                .join("")
+        ),
+    }
+}
+
+fn steps_of(nodes: &[Node], id: usize) -> Vec<(Step, usize)> {
+    match &nodes[id] {
+        Node::Record(fs) => fs
+            .iter()
+            .enumerate()
+            .map(|(i, (_, t))| ((None, i), *t))
+            .collect(),
+        Node::Enum(vs) => vs
+            .iter()
+            .enumerate()
+            .flat_map(|(v, (_, ts))| {
+                ts.iter()
+                    .enumerate()
+                    .map(move |(i, t)| ((Some(v), i), *t))
+            })
+            .collect(),
+        _ => vec![],
+    }
+}
+
+fn enumerate_paths(
+    nodes: &[Node],
+    id: usize,
+    depth: usize,
+    prefix: &mut Vec<Step>,
+    out: &mut Vec<(Vec<Step>, usize)>,
+) {
+    if depth == 0 || out.len() >= 48 {
+        return;
+    }
+    for (step, t) in steps_of(nodes, id) {
+        if out.len() >= 48 {
+            return;
+        }
+        prefix.push(step);
+        out.push((prefix.clone(), t));
+        enumerate_paths(nodes, t, depth - 1, prefix, out);
+        prefix.pop();
+    }
+}
+
+fn projection(nodes: &[Node], root: usize, path: &[Step]) -> Vec<Projection> {
+    let mut cur = root;
+    let mut out = vec![];
+    for (v, i) in path {
+        match (&nodes[cur], v) {
+            (Node::Record(fs), None) => {
+                out.push(Projection::Field(fs[*i].0.as_str().into()));
+                cur = fs[*i].1;
+            }
+            (Node::Enum(vs), Some(v)) => {
+                out.push(Projection::VariantField(vs[*v].0.as_str().into(), *i));
+                cur = vs[*v].1[*i];
+            }
+            _ => unreachable!(),
+        }
+    }
+    out
+}
+
+struct Addr {
+    map: HashMap<Var, (String, u32)>,
+}
+
+impl Addr {
+    fn var(&self, v: &Var) -> String {
+        if let Some((b, o)) = self.map.get(v) {
+            return format!("{b}+{o}");
+        }
+        match &v.kind {
+            VarKind::Explicit(n) => format!("{}+0", n.as_str()),
+            VarKind::Return => "ret+0".into(),
+            VarKind::Context => "ctx+0".into(),
+            VarKind::Tmp(_) => "t".into(),
+        }
+    }
+    fn op(&self, o: &Operand) -> String {
+        match o {
+            Operand::Place(v) => self.var(v),
+            Operand::Value(_) => "const".into(),
+        }
+    }
+    fn base(&self, v: &Var) -> Option<(String, u32)> {
+        if let Some(x) = self.map.get(v) {
+            return Some(x.clone());
+        }
+        match &v.kind {
+            VarKind::Explicit(n) => Some((n.as_str().to_string(), 0)),
+            VarKind::Return => Some(("ret".into(), 0)),
+            _ => None,
+        }
+    }
+}
+
+/// The memory operations (and comparisons) of a generated function, in block
+/// order, pointers resolved to `parameter+offset`.
+fn ops_of(item: &Item, name_of: &dyn Fn(usize) -> String) -> Vec<String> {
+    let mut a = Addr {
+        map: HashMap::new(),
+    };
+    let mut out = vec![];
+    for b in &item.blocks {
+        for i in &b.instructions {
+            match i {
+                Instruction::Offset { to, from, offset } => {
+                    if let Operand::Place(v) = from {
+                        if let Some((b, o)) = a.base(v) {
+                            a.map.insert(to.clone(), (b, o + offset));
+                        }
+                    }
+                }
+                Instruction::Read { from, ty, .. } => {
+                    out.push(format!("read {} {}", a.op(from), ty.bytes()))
+                }
+                Instruction::Write { to, val } => {
+                    out.push(format!("write {} {}", a.op(to), a.op(val)))
+                }
+                Instruction::Copy { to, from, size } => {
+                    out.push(format!("copy {} {} {size}", a.op(to), a.op(from)))
+                }
+                Instruction::Clone { to, from, .. } => {
+                    out.push(format!("clone {} {}", a.op(to), a.op(from)))
+                }
+                Instruction::Drop { var, .. } => {
+                    out.push(format!("drop {}", a.op(var)))
+                }
+                Instruction::Eq { left, right, .. } => {
+                    out.push(format!("eq {} {}", a.op(left), a.op(right)))
+                }
+                Instruction::IntCmp { .. } => out.push("icmp".into()),
+                Instruction::FloatCmp { .. } => out.push("fcmp".into()),
+                Instruction::Call {
+                    func,
+                    args,
+                    return_ptr,
+                    ..
+                } => {
+                    let f = func.as_str();
+                    let (kind, id) = match f.rsplit_once('_') {
+                        Some((p, n)) => (
+                            p.rsplit("::").next().unwrap_or(p).to_string(),
+                            n.parse::<usize>().ok(),
+                        ),
+                        None => (f.to_string(), None),
+                    };
+                    let mut s = format!("call {kind}");
+                    if let Some(r) = return_ptr {
+                        s += &format!(" {}", a.var(r));
+                    }
+                    for x in args {
+                        s += &format!(" {}", a.op(x));
+                    }
+                    if let Some(id) = id {
+                        s += &format!(" {}", name_of(id));
+                    }
+                    out.push(s);
+                }
+                Instruction::Return(Some(Operand::Value(IrValue::Bool(b)))) => {
+                    out.push(format!("ret {b}"))
+                }
+                _ => {}
+            }
+        }
+    }
+    out
+}
+
+pub(crate) fn dump_types(ctx: &mut LowerCtx<'_>) -> Dump {
+    let n = ctx.type_info.ty_pool.verif_len();
+    let refs: Vec<TyRef> = (0..n).map(TyRef::verif_from_index).collect();
+    let nodes: Vec<Node> = refs.iter().map(|t| node_of(ctx, *t)).collect();
+    let layouts_r: Vec<Result<Option<(usize, usize)>, String>> = refs
+        .iter()
+        .map(|t| guard(|| hooks::layout_of(ctx, *t)))
+        .collect();
+    let layouts: Vec<Option<(usize, usize)>> = layouts_r
+        .iter()
+        .map(|l| l.clone().ok().flatten())
+        .collect();
+    let mut types = vec![];
+    for (id, ty) in refs.iter().enumerate() {
+        let ty = *ty;
+        let printed = {
+            use crate::typechecker::scoped_display::TypeDisplay;
+            format!("{}", ty.display(ctx.type_info))
+        };
+        let mut paths = vec![];
+        let mut all = vec![];
+        enumerate_paths(&nodes, id, 3, &mut vec![], &mut all);
+        for (p, leaf) in all {
+            let proj = projection(&nodes, id, &p);
+            let r = guard(|| hooks::location(ctx, ty, proj, refs[leaf]))
+                .map(|o| o.map(|x| x.unwrap_or(usize::MAX)));
+            paths.push((p, r));
+        }
+        let aggregate = matches!(nodes[id], Node::Record(_) | Node::Enum(_));
+        let name_of = |i: usize| tystr(&nodes, &layouts, i);
+        let (clone_ops, drop_ops, eq_ops) = if aggregate {
+            (
+                Some(guard(|| ops_of(&hooks::generate_clone(ctx, ty), &name_of))),
+                Some(guard(|| ops_of(&hooks::generate_drop(ctx, ty), &name_of))),
+                Some(guard(|| ops_of(&hooks::generate_eq(ctx, ty), &name_of))),
+            )
+        } else {
+            (None, None, None)
+        };
+        types.push(TypeDump {
+            id,
+            printed,
+            node: nodes[id].clone(),
+            layout: layouts_r[id].clone(),
+            is_reference_type: guard(|| hooks::is_reference_type(ctx, ty)),
+            needs_clone: guard(|| hooks::needs_clone(ctx, ty)),
+            needs_drop: guard(|| hooks::needs_drop(ctx, ty)),
+            lower_type: guard(|| {
+                hooks::lower_type(ctx, ty).map(|t| {
+                    if matches!(t, crate::lir::IrType::Pointer) {
+                        None
+                    } else {
+                        Some(t.bytes())
+                    }
+                })
+            }),
+            paths,
+            clone_ops,
+            drop_ops,
+            eq_ops,
+        });
+    }
+    Dump { types }
+}
